@@ -18,7 +18,7 @@ ASSUMPTIONS = {
 }
 REQUIRED = {
     "C06": ["steps_compared", "single_word_cases", "program_cases", "self_modified_executed", "brz_taken", "opcode_alias_executed", "pc_wrap_steps", "selfmod_last_reexecuted", "selfmod_body_reexecuted", "loads_into_reused_simulation"],
-    "C19": ["words_round_tripped", "sources_compared", "label_refs", "array_vars", "doc_examples"],
+    "C19": ["words_round_tripped", "sources_compared", "label_refs", "array_vars", "doc_examples", "sources_with_other_memory_size", "over_wide_operands_encoded"],
     "C20": ["boundary_snapshots_compared", "illegal_calls_checked", "calls_after_done", "first_halves", "second_halves", "single_steps"],
 }
 
@@ -207,11 +207,11 @@ ACCS = [0, 1, 0x7FFF, 0x8000, 0xFFFF]
 # ------------------------------------------------------------------------------------------ C19 assembler AST
 
 
-def gen_source(rng):
-    """AST -> (text, expected image {addr: word}, expected max_pc, stats)"""
+def gen_source(rng, size=4096):
+    """AST -> (text, expected image {addr: word}, expected max_pc, stats); size = number of memory words"""
     case_of = lambda m: rng.choice([m, m.lower(), m.capitalize()])
     nv = rng.randint(0, 4)
-    variables, top, img = [], 4095, {}
+    variables, top, img = [], size - 1, {}
     arrays = 0
     for i in range(nv):
         vals = [rng.choice([0, 1, 65535, rng.getrandbits(16), rng.getrandbits(12)]) for _ in range(rng.randint(1, 4))]
@@ -246,7 +246,7 @@ def gen_source(rng):
                 addr, t = sym[s], s
                 refs += 1
             else:
-                addr = rng.choice([0, 1, 4095, rng.randrange(4096)])
+                addr = rng.choice([0, 1, min(4095, size - 1), rng.randrange(min(4096, size))])
                 t = rng.choice([str(addr), "0x%x" % addr, "0x%03X" % addr, "0x%04x" % addr])
             words.append((MNEMONICS.index(m) << 12) | (addr % 4096))
             lines.append(rng.choice(["", " ", "\t", "    "]) + pre + case_of(m) + " " + t + rng.choice(["", " # c", "   "]))
@@ -264,17 +264,23 @@ def gen_source(rng):
         text = "\n".join(([".text"] if rng.random() < 0.3 else []) + lines)
     exp = dict(img)
     exp.update({i: w for i, w in enumerate(words)})
-    return {"kind": "asm", "text": text, "image": {str(a): v for a, v in exp.items()}, "max_pc": n - 1, "stats": {"vars": nv, "refs": refs, "arrays": arrays}}
+    case = {"kind": "asm", "text": text, "image": {str(a): v for a, v in exp.items()}, "max_pc": n - 1, "stats": {"vars": nv, "refs": refs, "arrays": arrays}}
+    if size != 4096:
+        case["size"] = size
+    return case
 
 
 def run_asm_case(case, res):
     from architecture_simulator.simulation.toy_simulation import ToySimulation
 
-    s = ToySimulation()
+    # ToySimulation(unified_memory_size=N): "top of memory" is N-1
+    s = ToySimulation(case["size"]) if case.get("size") else ToySimulation()
+    if case.get("size"):
+        res.count("sources_with_other_memory_size")
     try:
         s.load_program(case["text"])
     except Exception as e:
-        res.violation("C19", "load-failed", "well-formed TOY source failed to load: %r" % (e,), case)
+        res.violation("C19", "load-failed", "well-formed TOY source failed to load (memory size %s): %r" % (case.get("size", 4096), e), case)
         return
     res.count("sources_compared")
     exp = {int(a): v for a, v in case["image"].items()}
@@ -362,6 +368,17 @@ def run_encode(res):
             res.count("instructions_round_tripped")
             if (e >> 12) != MNEMONICS.index(m) or (a is not None and (e & 0xFFF) != a) or not (j == i) or type(j) is not cls:
                 res.violation("C19", "encoding", "%r encodes to %#06x which decodes to %r" % (i, e, j), {"kind": "instr", "m": m, "a": a})
+                return
+    # operands beyond 12 bits (constructor or literal): however the address is reduced, the word stays a 16-bit
+    # word whose top four bits are the opcode
+    for m in MNEMONICS[:8]:
+        cls = instruction_map[m]
+        for a in (4096, 4097, 4101, 0x1003, 0x1FFF, 0x8000, 0xFFFF, 0x10000, 0x12345, 70000):
+            i = cls(address=a)
+            e = int(i)
+            res.count("over_wide_operands_encoded")
+            if not (0 <= e < 65536) or (e >> 12) != MNEMONICS.index(m) or not (ToyInstruction.from_integer(e) == i):
+                res.violation("C19", "encoding", "%s(address=%d) encodes to %#x: not a 16-bit word with opcode %d in the top four bits / does not decode back to an equal instruction" % (m, a, e, MNEMONICS.index(m)), {"kind": "instr", "m": m, "a": a})
                 return
     res.exhaustive = True
     res.extra["exhaustive_space"] = "all 65536 words and all 8*4096+5 assembler-constructible instructions"
@@ -572,7 +589,7 @@ def run_shard(spec, res):
         run_docs(res)
     elif k == "asm":
         for it in range(spec["n"]):
-            case = gen_source(rng)
+            case = gen_source(rng, rng.choice([4096, 4096, 4096, 4096, 64, 256, 1000, 2048, 5000]))
             guarded(run_case, prop, case, res)
             res.evaluations += 1
             if it < 1:
